@@ -15,405 +15,14 @@ package main
 //	                                          or math.Max(·,0)/math.Min(·,1) clamps)
 
 import (
-	"fmt"
 	"go/ast"
-	"go/constant"
-	"go/token"
 	"go/types"
-	"strings"
 )
 
-func segDistFuncs(c *Ctx) []*types.Func {
-	ptT := c.P.NamedType("geom", "Point")
-	var out []*types.Func
-	called := map[*types.Func]bool{}
-	if m := c.P.Method("geom", "LineString", "Distance"); m != nil && c.P.Decl(m) != nil {
-		ast.Inspect(c.P.Decl(m).Body, func(n ast.Node) bool {
-			if call, ok := n.(*ast.CallExpr); ok {
-				if f := callee(c.P.InfoOf(m), call); f != nil {
-					called[f] = true
-				}
-			}
-			return true
-		})
-	}
-	for _, fn := range c.P.RepoFuncs() {
-		pk := c.P.DeclPkg(fn)
-		if pk != c.P.Pkg("geom") && pk != c.P.Pkg("op") {
-			continue
-		}
-		sig := fn.Type().(*types.Signature)
-		if sig.Recv() != nil || sig.Params().Len() != 3 || sig.Results().Len() != 1 || !isFloat64(sig.Results().At(0).Type()) {
-			continue
-		}
-		ok := true
-		for i := 0; i < 3; i++ {
-			if !types.Identical(sig.Params().At(i).Type(), ptT) {
-				ok = false
-			}
-		}
-		if !ok {
-			continue
-		}
-		// a distance routine: called from LineString.Distance, or dividing / building a point
-		// (orientation predicates such as isLeft share the signature but do neither)
-		cand := called[fn]
-		ast.Inspect(c.P.Decl(fn).Body, func(n ast.Node) bool {
-			switch x := n.(type) {
-			case *ast.BinaryExpr:
-				if x.Op == token.QUO {
-					cand = true
-				}
-			case *ast.CompositeLit:
-				if types.Identical(c.P.InfoOf(fn).TypeOf(x), ptT) {
-					cand = true
-				}
-			}
-			return true
-		})
-		if cand {
-			out = append(out, fn)
-		}
-	}
-	return out
-}
-
-// checkSegmentDistance files obligations under the given rule id.
-func checkSegmentDistance(c *Ctx, rule string) {
-	fns := segDistFuncs(c)
-	if len(fns) == 0 {
-		c.Unk(rule, "geom#point-to-segment-distance", token.NoPos, "no (Point, Point, Point) float64 function found")
-		return
-	}
-	for _, fn := range fns {
-		segDistOne(c, rule, fn)
-	}
-}
-
 type cmpFacts map[string]bool
-
-func segDistOne(c *Ctx, rule string, fn *types.Func) {
-	info := c.P.InfoOf(fn)
-	fd := c.P.Decl(fn)
-	name := c.P.FuncName(fn)
-	sc := newFnScope(info, fd.Body)
-	ps := paramVars(info, fd.Type)
-	key := func(e ast.Expr) string {
-		e = unparen(e)
-		if tv, ok := info.Types[e]; ok && tv.Value != nil {
-			if f, ok := constant.Float64Val(constant.ToFloat(tv.Value)); ok {
-				return fmt.Sprintf("#%g", f)
-			}
-		}
-		return src(e)
-	}
-	// ---- the interpolation Point{S.X + b*v.X, S.Y + b*v.Y}
-	var interp *ast.CompositeLit
-	var bObj types.Object
-	ast.Inspect(fd.Body, func(n ast.Node) bool {
-		cl, ok := n.(*ast.CompositeLit)
-		if !ok || len(cl.Elts) != 2 || interp != nil {
-			return true
-		}
-		var bs []types.Object
-		for _, el := range cl.Elts {
-			if kv, ok := el.(*ast.KeyValueExpr); ok {
-				el = kv.Value
-			}
-			add, ok := unparen(el).(*ast.BinaryExpr)
-			if !ok || add.Op != token.ADD {
-				return true
-			}
-			for _, pr := range [][2]ast.Expr{{add.X, add.Y}, {add.Y, add.X}} {
-				base, ok1 := unparen(pr[0]).(*ast.SelectorExpr)
-				mul, ok2 := unparen(pr[1]).(*ast.BinaryExpr)
-				if !ok1 || !ok2 || mul.Op != token.MUL {
-					continue
-				}
-				isEnd := false
-				for k := 1; k < 3 && k < len(ps); k++ {
-					if ps[k] != nil && objOf(info, base.X) == ps[k] {
-						isEnd = true
-					}
-				}
-				if !isEnd {
-					continue
-				}
-				for _, f := range []ast.Expr{mul.X, mul.Y} {
-					if id, ok := unparen(f).(*ast.Ident); ok && isFloat64(info.TypeOf(id)) {
-						bs = append(bs, objOf(info, id))
-					}
-				}
-			}
-		}
-		if len(bs) == 2 && bs[0] == bs[1] && bs[0] != nil {
-			interp, bObj = cl, bs[0]
-		}
-		return true
-	})
-	if interp == nil {
-		c.Unk(rule, name+"#interpolation", fd.Pos(), "the foot point S + b·(E−S) is not built in the recognised form Point{S.X + b*v.X, S.Y + b*v.Y}")
-		return
-	}
-	bName := bObj.Name()
-	// ---- definition of b
-	ds := sc.defs[bObj]
-	if len(ds) != 1 || ds[0] == nil {
-		c.Unk(rule, name+"#parameter", interp.Pos(), "the projection parameter %s has %d definitions", bName, len(ds))
-		return
-	}
-	def := unparen(ds[0])
-	clampLo, clampHi := false, false
-	for {
-		call, ok := def.(*ast.CallExpr)
-		if !ok || len(call.Args) != 2 {
-			break
-		}
-		f := callee(info, call)
-		isMax, isMin := isFuncIn(f, "math", "Max"), isFuncIn(f, "math", "Min")
-		if !isMax && !isMin {
-			break
-		}
-		var inner ast.Expr
-		for i := 0; i < 2; i++ {
-			k := key(call.Args[i])
-			if isMax && k == "#0" {
-				clampLo, inner = true, call.Args[1-i]
-			}
-			if isMin && k == "#1" {
-				clampHi, inner = true, call.Args[1-i]
-			}
-		}
-		if inner == nil {
-			break
-		}
-		def = unparen(inner)
-	}
-	var num, den ast.Expr
-	if q, ok := def.(*ast.BinaryExpr); ok && q.Op == token.QUO {
-		num, den = q.X, q.Y
-	}
-	// ---- flow
-	holds := func(s cmpFacts, rel, x, y string) bool {
-		// gt/ge closure by DFS over recorded facts
-		type edge struct {
-			to     string
-			strict bool
-		}
-		adj := map[string][]edge{}
-		for f := range s {
-			p := strings.SplitN(f, "|", 3)
-			if len(p) == 3 && (p[0] == "gt" || p[0] == "ge") {
-				adj[p[1]] = append(adj[p[1]], edge{p[2], p[0] == "gt"})
-			}
-		}
-		adj["#1"] = append(adj["#1"], edge{"#0", true})
-		if rel == "ne" {
-			if s["ne|"+x+"|"+y] || s["ne|"+y+"|"+x] {
-				return true
-			}
-		}
-		var dfs func(at string, strict bool, seen map[string]bool) bool
-		target := y
-		dfs = func(at string, strict bool, seen map[string]bool) bool {
-			if at == target && (strict || rel == "ge") {
-				return true
-			}
-			k := fmt.Sprintf("%s/%v", at, strict)
-			if seen[k] {
-				return false
-			}
-			seen[k] = true
-			for _, e := range adj[at] {
-				if dfs(e.to, strict || e.strict, seen) {
-					return true
-				}
-			}
-			return false
-		}
-		switch rel {
-		case "gt", "ge":
-			if rel == "ge" && x == y {
-				return true
-			}
-			return dfs(x, false, map[string]bool{})
-		case "ne":
-			target = y
-			if dfs(x, false, map[string]bool{}) && func() bool { rel2 := rel; rel = "gt"; r := dfs(x, false, map[string]bool{}); rel = rel2; return r }() {
-				return true
-			}
-			target = x
-			rel = "gt"
-			r := dfs(y, false, map[string]bool{})
-			rel = "ne"
-			return r
-		}
-		return false
-	}
-	divChecked, interpChecked := false, false
-	var problems []string
-	var probPos token.Pos
-	cl := &segClient{info: info, key: key}
-	cl.onStmt = func(n ast.Node, s cmpFacts) {
-		if num != nil && containsNode(n, den) && !divChecked {
-			divChecked = true
-			d := key(den)
-			if !(holds(s, "gt", d, "#0") || holds(s, "ne", d, "#0") || holds(s, "gt", "#0", d)) {
-				problems = append(problems, fmt.Sprintf("`%s / %s` is evaluated without knowing %s ≠ 0: for a zero-length segment it is 0/0 = NaN, NaN passes every range test, and the distance returned is NaN", src(num), src(den), src(den)))
-				probPos = den.Pos()
-			}
-		}
-		if containsNode(n, interp) && !interpChecked {
-			interpChecked = true
-			lo := clampLo || holds(s, "ge", bName, "#0")
-			hi := clampHi || holds(s, "ge", "#1", bName)
-			if num != nil {
-				nk, dk := key(num), key(den)
-				posD := holds(s, "gt", dk, "#0")
-				if posD && holds(s, "ge", nk, "#0") {
-					lo = true
-				}
-				if posD && holds(s, "ge", dk, nk) {
-					hi = true
-				}
-			}
-			if !lo {
-				problems = append(problems, fmt.Sprintf("at the foot point %s may be negative: the distance is measured to the line's extension before the segment start", bName))
-				probPos = interp.Pos()
-			}
-			if !hi {
-				problems = append(problems, fmt.Sprintf("at the foot point nothing bounds %s by 1: for a point beyond the segment's end the distance is measured to the infinite line, not to the end point, so Distance under-reports and the simplifier's deviation test accepts shortcuts it must reject", bName))
-				probPos = interp.Pos()
-			}
-		}
-	}
-	fl := &Flow[cmpFacts]{C: cl, Info: info}
-	fl.Run(fd.Body, cmpFacts{})
-	if len(fl.Unsupported) > 0 {
-		c.Unk(rule, name+"#clamped-projection", fl.Unsupported[0].Pos(), "unsupported control flow")
-		return
-	}
-	if !interpChecked || (num != nil && !divChecked) {
-		c.Unk(rule, name+"#clamped-projection", fd.Pos(), "the division or the interpolation statement was not reached by the flow pass")
-		return
-	}
-	if len(problems) > 0 {
-		c.Bad(rule, name+"#clamped-projection", probPos, "%s", strings.Join(problems, "; "))
-		return
-	}
-	c.OK(rule, name+"#clamped-projection", interp.Pos(), "0 ≤ %s ≤ 1 at the foot point and the divisor is non-zero on every path", bName)
-}
 
 type segClient struct {
 	info   *types.Info
 	key    func(ast.Expr) string
 	onStmt func(ast.Node, cmpFacts)
-}
-
-func (c *segClient) Copy(s cmpFacts) cmpFacts {
-	o := cmpFacts{}
-	for k := range s {
-		o[k] = true
-	}
-	return o
-}
-func (c *segClient) Join(a, b cmpFacts) cmpFacts {
-	o := cmpFacts{}
-	for k := range a {
-		if b[k] {
-			o[k] = true
-		}
-	}
-	return o
-}
-func (c *segClient) Equal(a, b cmpFacts) bool {
-	if len(a) != len(b) {
-		return false
-	}
-	for k := range a {
-		if !b[k] {
-			return false
-		}
-	}
-	return true
-}
-func (c *segClient) Stmt(n ast.Node, s cmpFacts) cmpFacts {
-	if rs, ok := n.(*ast.RangeStmt); ok {
-		n = rs.X
-	}
-	c.onStmt(n, s)
-	// kill facts about reassigned identifiers
-	kill := func(e ast.Expr) {
-		if id, ok := unparen(e).(*ast.Ident); ok {
-			for k := range s {
-				for _, part := range strings.Split(k, "|")[1:] {
-					if part == id.Name || strings.Contains(part, id.Name+".") || strings.Contains(part, "("+id.Name) || strings.Contains(part, id.Name+",") || strings.Contains(part, ", "+id.Name) {
-						delete(s, k)
-					}
-				}
-			}
-		}
-	}
-	switch x := n.(type) {
-	case *ast.AssignStmt:
-		if x.Tok != token.DEFINE {
-			for _, l := range x.Lhs {
-				kill(l)
-			}
-		}
-	case *ast.IncDecStmt:
-		kill(x.X)
-	}
-	return s
-}
-func (c *segClient) Branch(cond ast.Expr, truth bool, s cmpFacts) cmpFacts {
-	for _, at := range conjuncts(cond, truth) {
-		b, ok := unparen(at.E).(*ast.BinaryExpr)
-		if !ok {
-			continue
-		}
-		x, y := c.key(b.X), c.key(b.Y)
-		op := b.Op
-		if !at.Truth {
-			switch op {
-			case token.LSS:
-				op = token.GEQ
-			case token.LEQ:
-				op = token.GTR
-			case token.GTR:
-				op = token.LEQ
-			case token.GEQ:
-				op = token.LSS
-			case token.EQL:
-				op = token.NEQ
-			case token.NEQ:
-				op = token.EQL
-			default:
-				continue
-			}
-			// note: the negation of a float comparison also holds for NaN operands, where neither
-			// order holds; the facts are used only with operands whose finiteness follows from a
-			// non-zero divisor, which is the other obligation
-		}
-		switch op {
-		case token.LSS:
-			s["gt|"+y+"|"+x] = true
-		case token.LEQ:
-			s["ge|"+y+"|"+x] = true
-		case token.GTR:
-			s["gt|"+x+"|"+y] = true
-		case token.GEQ:
-			s["ge|"+x+"|"+y] = true
-		case token.NEQ:
-			s["ne|"+x+"|"+y] = true
-		case token.EQL:
-			s["ge|"+x+"|"+y] = true
-			s["ge|"+y+"|"+x] = true
-		}
-	}
-	return s
-}
-func (c *segClient) Return(r *ast.ReturnStmt, s cmpFacts) {}
-func (c *segClient) TypeCase(sw *ast.TypeSwitchStmt, cc *ast.CaseClause, s cmpFacts) cmpFacts {
-	return s
 }
